@@ -1,7 +1,7 @@
 from __future__ import annotations
 
 from abc import ABC, abstractmethod
-from dataclasses import dataclass, field
+from dataclasses import dataclass, field, fields
 from typing import Literal, TYPE_CHECKING
 from sigma.correlations import SigmaCorrelationRule
 from sigma.types import SigmaFieldReference, SigmaType
@@ -24,6 +24,28 @@ class ProcessingCondition(ABC):
     """Anchor base class for all processing condition types."""
 
     _pipeline: "ProcessingPipeline" | None = field(init=False, compare=False, default=None)
+
+    def __str__(self) -> str:
+        """
+        The dataclass representation without the content of the owning pipeline. The pipeline
+        contains tracking sets, their representation (and therefore each error message that names
+        the condition) would depend on the hash seed of the process.
+        """
+        return (
+            type(self).__qualname__
+            + "("
+            + ", ".join(
+                f"{f.name}="
+                + (
+                    "..."
+                    if f.name == "_pipeline" and self._pipeline is not None
+                    else repr(getattr(self, f.name))
+                )
+                for f in fields(self)
+                if f.repr
+            )
+            + ")"
+        )
 
     def set_pipeline(self, pipeline: "ProcessingPipeline") -> None:
         if self._pipeline is None:
